@@ -1122,6 +1122,17 @@ PROPS["C12"] = dict(
     technique="Coq termination/no-panic proofs on the model + bounded-process robustness monitor on the real implementation",
 )
 
+import c20  # noqa: E402
+PROPS["C20"] = dict(
+    runner=c20.runner, aspects=["verdict"], n=(400, 8000),
+    rule="tools/c20.py: structured random descriptions (1..3 types with explicit/implicit addresses, unknown<N> gaps, optional own vftable with indices, size/align attributes; 0..2 enums with explicit/implicit values) "
+         "and 1..3 applicable rewrites from the family (address explicit/implicit, gap <-> address, natural size, index explicit/implicit, enum value explicit/implicit, other number spellings, reordering of definitions); both sides are built by the real "
+         "pyxis and every output file is compared by content hash; non-trivial = accepted and the two texts differ",
+    level_text="Proved in Coq (Properties/C20.v), each as 'the model computes the same result': explicit address = natural address, size attribute = natural size, index = natural slot, enum value = implicit value. "
+               "Gap-vs-address, number spelling and reordering have no theorem (partial); they, and all the others again on the real code, are decided by the monitor: original and rewritten description built by the real pyxis, outputs byte-identical.",
+    level_note="Trusted: Coq kernel; model validated by this run's correspondence (verdict, file set, registry on both sides); byte identity is observed on the implementation (content hash of every output file).",
+)
+
 NOT_YET = {}
 
 import c03  # noqa: E402
